@@ -229,8 +229,12 @@ def run_check(pid, cfg, tier, seed, jobs, work, t_start):
             infra.append(f"{name}: exit status {rc} without a violation marker (harness problem):\n{tail}")
 
     ev = merge_evidence(pid, cfg, tier, seed, work, time.time() - t_start, len(violations), known_lines, infra)
-    os.makedirs(os.path.join(ROOT, "evidence"), exist_ok=True)
-    with open(os.path.join(ROOT, "evidence", pid + ".json"), "w") as f:
+    # runs against another dst tree (seeded changes) must not overwrite the evidence of /repo
+    evdir = os.path.join(ROOT, "evidence")
+    if os.path.realpath(os.environ.get("VERIF_REPO", "/repo")) != "/repo":
+        evdir = os.path.join(ROOT, ".work", "evidence-other-repo")
+    os.makedirs(evdir, exist_ok=True)
+    with open(os.path.join(evdir, pid + ".json"), "w") as f:
         json.dump(ev, f, indent=1, sort_keys=True)
         f.write("\n")
 
